@@ -39,6 +39,8 @@ Readings adopted (DESIGN Appendix E and here):
   client issued: afterwards the hook may have run at most once IN TOTAL, nothing is processed, every use is refused.
   next_with_token() answering a cancelled session with (None, None) -- its documented end-of-stream answer -- counts as
   refusing (no data, no dispatch); iteration and exchange() must raise RpcError (their docstrings promise it).
+* a step may swallow a failed out.emit() (bad batch) and then emit a fallback / nothing / finish: "the producer emitted"
+  and "one output per input" are about the batches whose emit succeeded.
 * input-schema cases are per session (a socket session fixes the IPC schema of its input stream with the first batch).
 """
 from __future__ import annotations
@@ -127,6 +129,27 @@ def gen_life(rng: Any) -> tuple[str, dict[str, Any], list[Any]]:
     return method, prog, ops
 
 
+def gen_tryemit(rng: Any) -> tuple[str, dict[str, Any], list[Any]]:
+    """Steps of the form try-emit(bad batch) -> except -> emit(fallback) | emit nothing | finish, producer and exchange."""
+    kind = rng.choice(["producer", "exchange"])
+    n = rng.choice([1, 2, 3])
+    steps = []
+    for j in range(n):
+        follow = rng.choice(["emit", "emit", "nothing", "finish", "emit_finish"])
+        st: dict[str, Any] = {"logs": [], "emit": {"rows": rng.choice([0, 1, 3]), "meta": None} if follow in ("emit", "emit_finish") else None,
+                              "finish": follow in ("finish", "emit_finish"), "raise": None}
+        if j == 0 or rng.random() < 0.7:
+            st["try_bad"] = rng.choice(["missing", "missing", "uncastable", "uncastable", "extra"])
+        steps.append(st)
+    prog = {"init_logs": [], "init": "ok", "header": rng.randrange(0, 9), "steps": steps, "cancel_raises": False}
+    method = kind + ("_h" if rng.random() < 0.3 else "")
+    if kind == "producer":
+        ops: list[Any] = [["iter", None]] + ([["cancel"]] if rng.random() < 0.3 else [])
+    else:
+        ops = [["exch", None] for _ in range(n + 1)] + [[rng.choice(["close", "cancel"])]]
+    return method, prog, ops
+
+
 def gen_fault(rng: Any) -> tuple[str, dict[str, Any], list[Any]]:
     """HTTP only: a cancel whose POST fails in the client (response lost / request never sent), then the history goes on
     with cancel() again, next_with_token(), iteration, exchange(), close()."""
@@ -155,7 +178,12 @@ def gen_fault(rng: Any) -> tuple[str, dict[str, Any], list[Any]]:
 
 # --------------------------------------------------------------------------- reference (what the program emits)
 def effective_step(st: dict[str, Any]) -> dict[str, Any]:
-    """A step that emits twice raises at the second emit, before finish / raise are reached."""
+    """A step that emits twice raises at the second emit, before finish / raise are reached.  A swallowed FAILED emit
+    (try_bad missing / uncastable) leaves no trace; try_bad "extra" is a successful emit of 2 rows (projection)."""
+    if st.get("try_bad") == "extra":
+        if st["emit"] is not None:
+            return {"logs": st["logs"], "emit": st["emit"], "finish": False, "raise": ["RuntimeError", EMIT2_MSG]}
+        st = {**st, "emit": {"rows": 2, "meta": None}, "try_bad": None}
     if st.get("emit2") and st["emit"] is not None:
         return {"logs": st["logs"], "emit": st["emit"], "finish": False, "raise": ["RuntimeError", EMIT2_MSG]}
     return st
@@ -274,6 +302,14 @@ def run(ctx: Any) -> None:
         # next_with_token needs one batch per response (documented): caps None / 1 only
         cases.append({"pid": pid, "method": method, "prog": prog, "ops": ops, "http_only": True,
                       "caps": [None, 1] if any(o[0] == "next" for o in ops) else caps})
+    # dedicated, same in both tiers, own RNG (the cases above stay what they were)
+    import random as _random
+
+    rng_te = _random.Random(f"C10-tryemit-{ctx.seed}")
+    for _ in range(24):
+        pid += 1
+        method, prog, ops = gen_tryemit(rng_te)
+        cases.append({"pid": pid, "method": method, "prog": prog, "ops": ops, "tryemit": True})
     typed_prog = {"init_logs": [], "init": "ok", "header": 0, "steps": [_E1] * 4, "cancel_raises": False}
     for name in S.PERTURB:
         pid += 1
@@ -286,6 +322,8 @@ def run(ctx: Any) -> None:
     t0 = time.time()
 
     def viol(key: str, what: str, c: dict[str, Any], kind: str, cap: Any, res: Any, **kw: Any) -> None:
+        if c.get("tryemit") and key in ("producer-batches-differ", "exchange-not-one-output-per-input", "exchange-not-one-process-per-input", "client-blocked-or-crashed"):
+            key, what = "failed-emit-leaves-collector-state-behind", what + " (a step swallowed a failed out.emit() before going on)"
         ctx.violation(key, what, {"method": c["method"], "program": c["prog"], "ops": c["ops"], "transport": kind, "max_response_bytes": cap,
                                   "observed": {"init": res["init"], "ops": [[e, [list(x[:3]) for x in cs or []]] for e, cs in res["ops"]]}, **kw})
 
@@ -296,6 +334,8 @@ def run(ctx: Any) -> None:
         ctx.case([method, prog, ops], nontrivial=(bool(prog["steps"]) and has_cancel) or method == "typed")
         ctx.tally("method", method)
         ctx.tally("steps", len(prog["steps"]))
+        if c.get("tryemit"):
+            ctx.tally("try_emit", ",".join(f"{s_.get('try_bad') or '-'}>{'emit' if s_['emit'] else ''}{'+finish' if s_['finish'] else ''}" or "nothing" for s_ in prog["steps"]))
         ctx.tally("ops_shape", " ".join(o[0] for o in ops))
         first_cancel = next((j for j, o in enumerate(ops) if o[0] in ("cancel", "cancel_fault")), None)
         if c.get("http_only"):
